@@ -71,11 +71,13 @@ VNewDt(e) == LET a == e.a IN WithDt(e.r, NewDt(a.y, a.mo, a.d, a.h, a.mi, a.s, a
 VFromLocal(e) == WithDt(e.r, FromLocal(WToCDS(e.a.t), e.a.ns, e.a.type), TRUE)
 VLocaltime(e) == WithDt(e.r, Localtime(vZone, WToCDS(e.a.u), e.a.ns), TRUE)
 \* projection keeps (instant, ns) and re-derives fields and type from the target vZone
+\* the source's instant: given, or denoted by UTC fields (second 60 = second 0 of the next minute)
+ProjT(a) == IF Has(a, "y") THEN UnixOf(a.y, a.mo, a.d, a.h, a.mi, a.s) ELSE WToCDS(a.t)
 VProject(e) ==
-  LET t == WToCDS(e.a.t) lt == Localtime(vZone, t, e.a.ns) IN
+  LET t == ProjT(e.a) lt == Localtime(vZone, t, e.a.ns) IN
   IF Has(e.r, "ok") THEN
        (IF e.r.ok.dst \in lt.ok THEN {} ELSE IF lt.ok = {} THEN {"accepted-but-must-fail"} ELSE {"wrong-value"})
-       \cup (IF e.r.ok.dst.u = e.r.ok.src.u /\ e.r.ok.dst.ns = e.r.ok.src.ns /\ e.r.ok.src.u = e.a.t THEN {} ELSE {"C14-projection-changed-instant"})
+       \cup (IF e.r.ok.dst.u = e.r.ok.src.u /\ e.r.ok.dst.ns = e.r.ok.src.ns /\ e.r.ok.src.u = CDSToW(t) THEN {} ELSE {"C14-projection-changed-instant"})
        \cup (IF DtInv(e.r.ok.dst) THEN {} ELSE {"C14-dtinv"})
   ELSE IF Has(e.r, "err") /\ e.r.err = "Construct" THEN {}       \* the source date-time itself could not be built
   ELSE Judge(e.r, lt)
@@ -262,7 +264,7 @@ VsAlgo(e) ==
               ELSE IF AlgoHits(vZone, WToCDS(e.a.u), e.a.ns) = e.r.ok.hits THEN "Same" ELSE "Differs"
          [] e.op = "lookup" -> TypeVsAlgo(vZone, WToCDS(e.a.u), e.r)
          [] e.op = "localtime" -> DtVsAlgo(vZone, WToCDS(e.a.u), e.a.ns, e.r, Ident)
-         [] e.op = "project" -> IF Has(e.r, "err") /\ e.r.err = "Construct" THEN "NoCmp" ELSE DtVsAlgo(vZone, WToCDS(e.a.t), e.a.ns, e.r, DstOf)
+         [] e.op = "project" -> IF Has(e.r, "err") /\ e.r.err = "Construct" THEN "NoCmp" ELSE DtVsAlgo(vZone, ProjT(e.a), e.a.ns, e.r, DstOf)
          [] e.op = "fromnanos" /\ e.a.via = "zone" ->
               LET sp == Split(e.a.N) IN IF ~WFitsI64(sp.q) THEN "NoCmp" ELSE DtVsAlgo(vZone, WToCDS(sp.q), sp.r, e.r, Ident)
          [] OTHER -> "NoCmp"
